@@ -18,8 +18,9 @@ import (
 type Case struct {
 	G      *cfgm.G
 	Inputs [][]int
-	Lox    string `json:",omitempty"`
-	Detail string `json:",omitempty"`
+	Long   [][]int `json:",omitempty"` // long inputs: a sentence by construction and a mutation of it
+	Lox    string  `json:",omitempty"`
+	Detail string  `json:",omitempty"`
 }
 
 func genCase(rt *rapid.T, run *ev.Run, nInputs int) *Case {
@@ -46,7 +47,34 @@ func genCase1(rt *rapid.T, run *ev.Run, nInputs int) *Case {
 	}
 	p := cfgm.Desugar(g)
 	c := &Case{G: g, Inputs: cfggen.Inputs(rt, p, nInputs, 30)}
+	if p.HasRecursion() && !cfggen.HasErr(g) && rapid.IntRange(0, 1).Draw(rt, "long") == 0 {
+		// one long sentence (a member by construction) and one mutation of it (verdict of the
+		// reference LALR(1) parser, which is linear; Earley is cubic)
+		if w := cfggen.LongSentence(rt, p, rapid.IntRange(300, 2500).Draw(rt, "longlen")); len(w) >= 100 && len(w) <= 20000 {
+			c.Long = append(c.Long, w, cfggen.Mutate(rt, w, 2, p.NT))
+		}
+	}
 	return c
+}
+
+// oracle decides membership: Earley for inputs of up to 120 tokens, the reference LALR(1) parser
+// (linear) beyond that. known=false if the reference cannot be built for a long input.
+type oracle struct {
+	p   *cfgm.Plain
+	ref *cfgm.RefLALR
+}
+
+func (o *oracle) member(w []int) (is, known bool) {
+	if len(w) <= 120 {
+		return cfgm.Earley(o.p, w), true
+	}
+	if o.ref == nil {
+		o.ref = cfgm.BuildRef(o.p, 3000)
+	}
+	if o.ref.TooBig || o.ref.Conflict {
+		return false, false
+	}
+	return o.ref.Parse(w), true
 }
 
 // evalA: lox's in-process table, interpreted by a plain shift/reduce loop.
@@ -59,18 +87,32 @@ func evalA(run *ev.Run, c *Case) (bad []int, detail string) {
 	}
 	p := cfgm.Desugar(c.G)
 	account(run, p, text, c.Inputs, "A")
-	for _, w := range c.Inputs {
-		want := cfgm.Earley(p, w)
+	orc := &oracle{p: p}
+	for _, w := range append(append([][]int(nil), c.Inputs...), c.Long...) {
+		want, known := orc.member(w)
+		if !known {
+			continue
+		}
+		if len(w) > 120 {
+			run.Class("A:long-inputs")
+		}
 		got, pan := safeTableParse(lx, p.Names, w)
 		if pan != "" {
 			return w, fmt.Sprintf("layer A (LALR table): interpreting lox's table on [%s] panicked: %s", p.Show(w), pan)
 		}
 		run.Eval(1)
 		if want != got {
-			return w, fmt.Sprintf("layer A (LALR table): input [%s] is a sentence=%v but the table parse accepts=%v", p.Show(w), want, got)
+			return w, fmt.Sprintf("layer A (LALR table): input [%s] is a sentence=%v but the table parse accepts=%v", showClip(p, w), want, got)
 		}
 	}
 	return nil, ""
+}
+
+func showClip(p *cfgm.Plain, w []int) string {
+	if len(w) > 60 {
+		return fmt.Sprintf("%s ... (%d tokens)", p.Show(w[:60]), len(w))
+	}
+	return p.Show(w)
 }
 
 func safeTableParse(lx *loxb.Lox, names []string, w []int) (ok bool, pan string) {
@@ -117,7 +159,7 @@ func account(run *ev.Run, p *cfgm.Plain, text string, inputs [][]int, layer stri
 func evalC(run *ev.Run, cases []*Case, count bool) (bad [][]int, details []string, err error) {
 	pc := make([]*pbatch.Case, len(cases))
 	for i, c := range cases {
-		pc[i] = &pbatch.Case{G: c.G, Inputs: c.Inputs}
+		pc[i] = &pbatch.Case{G: c.G, Inputs: append(append([][]int(nil), c.Inputs...), c.Long...)}
 	}
 	outs, err := pbatch.Run(pc, true)
 	if ge, ok := err.(*pbatch.GenCodeError); ok {
@@ -148,16 +190,23 @@ func evalC(run *ev.Run, cases []*Case, count bool) (bad [][]int, details []strin
 		if count {
 			account(run, p, c.Lox, c.Inputs, "C")
 		}
-		for k, w := range c.Inputs {
+		orc := &oracle{p: p}
+		for k, w := range pc[i].Inputs {
 			r := o.Results[k]
-			want := cfgm.Earley(p, w)
+			want, known := orc.member(w)
+			if !known {
+				continue
+			}
+			if count && len(w) > 120 {
+				run.Class("C:long-inputs")
+			}
 			got := r.OK && r.Errs == 0 && r.Panic == ""
 			if count {
 				run.Eval(1)
 			}
 			if want != got {
 				bad[i] = w
-				details[i] = fmt.Sprintf("layer C (compiled parser): input [%s] is a sentence=%v but parse() returned ok=%v errors-delivered=%d panic=%q", p.Show(w), want, r.OK, r.Errs, r.Panic)
+				details[i] = fmt.Sprintf("layer C (compiled parser): input [%s] is a sentence=%v but parse() returned ok=%v errors-delivered=%d panic=%q", showClip(p, w), want, r.OK, r.Errs, r.Panic)
 				break
 			}
 		}
@@ -169,7 +218,7 @@ func TestC01(t *testing.T) {
 	run := ev.Start("C01")
 	defer run.Finish(t)
 	run.Rule = "random conflict-free grammars without precedence (templates + shape library, 60% with ? * + *! @list sugar, 10% with @error productions, rendering varied) x token sequences (random derivations, 1-2 step mutants, short arbitrary strings); " +
-		"oracle = Earley recogniser on the documented desugaring, both directions; layer A interprets lox's LALR table, layer C runs the compiled parser; " +
+		"oracle = Earley recogniser on the documented desugaring, both directions; layer A interprets lox's LALR table, layer C runs the compiled parser; a quarter of the recursive grammars also get a 300-2500 token sentence (member by construction) and one mutation of it, judged by the reference LALR(1) parser (linear); " +
 		"non-trivial = (grammar, input) with |input|>=2 for grammars with a nullable rule or recursion for which both accepted and rejected inputs of length>=2 were tried; distinct by (grammar text, input)"
 	run.Assumptions = []string{"Earley recogniser in lib/cfgm (independent of lox)", "a parse is clean when parse() returns true and no action received an Error value"}
 
@@ -323,5 +372,5 @@ func shrinkC(run *ev.Run, c *Case) *Case {
 		}
 		return res
 	}
-	return shrink.Greedy(c, cands, failing, 12)
+	return shrink.Greedy(c, cands, failing, 24)
 }
